@@ -27,6 +27,8 @@ RULES = {
              'write to Database.map',
     'C04.e': 'nothing is sent to cluster members in the Secondary arm of the fan-out; the forwarder sends only in the '
              'Primary arm of the member role; the Primary arm of the fan-out sends only to Secondary members other than itself',
+    'C04.g': 'the rp wrapper dispatches the inner command on every path after it acknowledged it; a node-to-node receiver arm '
+             '(replicate, replicate-remove, replicate-increment) applies the change on every path where the database exists',
     'C04.f': 'the i32 handed to the store / increment and placed into emitted messages originates from the request\'s own '
              'field; literal -1 only for variants without a version',
 }
@@ -160,18 +162,38 @@ def run(ck, m):
     for v in SIBLINGS:
         effs, raw = m.arm_effects(v)
         fwd = [ev for ev in raw if ev.kind == 'local-call' and ev.name == fw.id and not m.in_guard(ev.guards)]
-        # distinct forward call sites, and whether each sits on a not-primary branch of its body
-        sites = {}
-        for ev in fwd:
-            np_region = repl.not_primary_region(m, ev.frame.body)
-            sites[(ev.frame.body.id, ev.bi)] = ev.bi in np_region
-        # the conflict resolver forwards too (replicate_change): those are not the arm's own forward
-        own = {k: v2 for k, v2 in sites.items() if k[0].startswith(d.id)}
-        other = {k: v2 for k, v2 in sites.items() if not k[0].startswith(d.id)}
-        # several closures (admin / non-admin branch of Resolve) each have their own single forward
+        from props.C14 import through_resolver
+        # a forward may be reached through local wrappers: attribute it to the call site in the arm's closure and call
+        # it "on the not-primary branch" when any frame on the way tests is_primary() == false around it
         per_closure = {}
-        for (bid, bi), cond in own.items():
-            per_closure.setdefault(bid, []).append(cond)
+        for ev in fwd:
+            if through_resolver(m, ev):
+                continue      # the conflict resolver's own replication of its record (judged by C14.b)
+            frames = [(cid, loc) for cid, loc in ev.chain] + [(ev.frame.body.id, ev.frame.body.loc(ev.bi))]
+            cond = False
+            in_primary = False
+            top = None
+            for i, (cid, loc) in enumerate(frames):
+                cb = m.prog.bodies.get(cid)
+                if cb is None:
+                    continue
+                nxt = frames[i + 1][0] if i + 1 < len(frames) else fw.id
+                blocks = [bi for bi in cb.reachable() if cb.term(bi)['k'] == 'call' and cb.loc(bi) == loc and
+                          (callee(cb.term(bi)) == nxt or i + 1 == len(frames) and callee(cb.term(bi)) == fw.id)]
+                if i + 1 == len(frames):
+                    blocks = [ev.bi]
+                np_region = repl.not_primary_region(m, cb)
+                if blocks and all(x in np_region for x in blocks):
+                    cond = True
+                if blocks and all(x in repl.primary_region(m, cb) for x in blocks):
+                    in_primary = True
+                if top is None and cid.startswith(d.id + '::{closure'):
+                    top = (cid, tuple(blocks))
+            if cond and in_primary:
+                continue      # is_primary() true in one frame and false in a deeper one: not a feasible path
+            if top is not None:
+                per_closure.setdefault(top[0], {})[top[1]] = cond or per_closure.get(top[0], {}).get(top[1], False)
+        per_closure = {k: list(v.values()) for k, v in per_closure.items()}
         ok_fwd = bool(per_closure) and all(len(c) == 1 and c[0] for c in per_closure.values())
         ck.ob('C04.d', 'dispatcher', '%s:forwards-once-when-not-primary' % v, ok_fwd,
               '%s forwards exactly once on its not-primary branch' % v if ok_fwd else
@@ -202,6 +224,48 @@ def run(ck, m):
               '%s also applies the change locally on a non-primary node (%s) and forwards it: the primary\'s fan-out excludes '
               'only the primary, so the originator re-applies its own write and ends one version ahead of the other nodes' % (v, local),
               d.loc(sw[1][v]))
+    # ---- (g) ---------------------------------------------------------------------------
+    effs, raw = m.arm_effects('ReplicateRequest')
+    redis = [ev for ev in raw if ev.kind == 'stop' and ev.frame.body.id == d.id]
+    tgt = sw[1]['ReplicateRequest']
+    okg = len(redis) == 1 and d.postdominates(redis[0].bi, tgt)
+    ck.ob('C04.g', 'dispatcher', 'rp-always-dispatches', okg,
+          'every rp message that is acknowledged is also dispatched' if okg else
+          'the rp wrapper can acknowledge a message and return without dispatching it (%d dispatch sites): the change is lost on this '
+          'node although the primary counts it as replicated' % len(redis), d.loc(tgt))
+    from props.C02 import increment_fn, remover_fn
+    stores_ = {b.id for b in m.prog.user_bodies() if b.kind == 'fn' and b.argc == 5 and b.locals[3] == 'i32'
+               and b.locals[1] == 'std::string::String' and b.locals[4] == '&nundb::bo::Database'}
+    appliers = stores_ | {increment_fn(m).id, remover_fn(m).id} | {b.id for b in m.prog.user_bodies() if b.id.endswith('db_ops::remove_key')}
+    for v in ('ReplicateSet', 'ReplicateRemove', 'ReplicateIncrement'):
+        effs, raw = m.arm_effects(v)
+        lookups = [(ev, info) for ev, kind, info in effs if kind == 'dbs-read' and info.get('method') == 'get' and ev.frame.body.id.startswith(d.id + '::{closure')]
+        okh = False
+        whyh = 'no database lookup found in the arm'
+        for ev, info in lookups:
+            cb = ev.frame.body
+            for (sbi, tm, els, adt) in core.enum_switches(cb, ev.bi):
+                some = tm.get('1', els)
+                calls = [x for x in cb.reachable() if cb.term(x)['k'] == 'call' and callee(cb.term(x)) in appliers and cb.dominates(some, x)]
+                # the Some arm joins the None arm afterwards: post-dominance is relative to the arm, so cut the None edge
+                rets = set(cb.return_blocks())
+                okh = bool(calls) and any(x == some or not (core.reachable_without(cb, {(p_, x) for p_ in cb.pred(x)}, start=some) & rets)
+                                           for x in calls)
+                whyh = 'the change is applied on every path of the database-found branch' if okh else \
+                    'the receiver can skip applying a delivered change although the database exists (conditional apply)'
+        # and no success reply can be built anywhere in the arm's closure without passing the apply call
+        for ev, info in lookups[:1]:
+            cb = ev.frame.body
+            applies = [x for x in cb.reachable() if cb.term(x)['k'] == 'call' and callee(cb.term(x)) in appliers]
+            cut = {(x, nx) for x in applies for nx in cb.succ(x)}
+            reach = core.reachable_without(cb, cut)
+            early = [cb.loc(x) for x in reach for s_ in cb.blocks[x]['s'] if s_['k'] == 'assign' and s_['r']['k'] == 'agg'
+                     and s_['r'].get('adt', '').endswith('bo::Response') and s_['r'].get('variant') not in ('Error', 'VersionError')]
+            if early:
+                okh = False
+                whyh = 'the receiver can answer success without applying the delivered change (success reply built at %s before / without ' \
+                       'the apply call)' % early[0]
+        ck.ob('C04.g', 'dispatcher', '%s:applies-unconditionally' % v, okh, whyh, d.loc(sw[1][v]))
     # ---- (e) ---------------------------------------------------------------------------
     fb, fsw = repl.fanout_loop(m)
     sbi, tm = fsw
